@@ -25,6 +25,8 @@ ASSUMED_ENUM_FIELDS = {
 
 def run(ctx):
     F, cl = MS.run_memsafe(ctx, "multiboot2_header", ["C14", "C15", ("C05", c05.only_header_kinds, "header kinds")], {"sites": 15})
+    # the region itself: ref_from_ptr views exactly the declared length (premise of C10)
+    ctx.import_prop("C10", only=lambda o: o.key.startswith("ref_from_ptr"), label="declared region")
     # header-tag iterator: same transition premises as C03 with H = HeaderTagHeader
     c03.check_next(ctx, F, "multiboot2_header::tags::HeaderTagHeader", 4, "HeaderTagHeader", rule_prefix="T")
     it = F.insts.get("multiboot2_header::header::Multiboot2Header::<'_>::iter")
